@@ -95,6 +95,15 @@ def worker(args):
            "paths": res.paths, "error": res.error, "obligations": res.obligations, "log": res.log, "refutations": [],
            "secs": 0.0}
     out["bounded"] = con.bounded
+    # an undecided frame obligation is decided syntactically when the function visibly stores to an attribute of `self` that
+    # no `modifies` entry mentions (the solver could not prove the frame, and here is the write that breaks it)
+    if any(o["kind"] == "frame" and o["status"] == "unknown" for o in res.obligations) and con.modifies is not None and "heap" not in con.modifies:
+        sites = _unlisted_self_stores(key, con)
+        if sites:
+            for o in res.obligations:
+                if o["kind"] == "frame" and o["status"] == "unknown":
+                    o["status"], o["backend"] = "failed", "syntactic"
+                    o["detail"] = "store outside the declared frame: " + "; ".join(sites[:3])
     bad = [o for o in res.obligations if o["status"] != "discharged" and not o.get("known")]
     if con.bounded and res.error is None:
         # replay the bounded counter-models directly
@@ -148,6 +157,34 @@ def worker(args):
 
 
 ONLY = None
+
+
+def _unlisted_self_stores(key, con):
+    """Stores to self.<attr> (assignment, element assignment, mutating method call) in the function under contract whose
+    attribute name occurs in no `modifies` entry."""
+    import ast as _ast
+    from pyvc.verify import find_region
+    from pyvc.scans import MUTATORS
+    finfo = Repo.get().find(key.split("#")[0])
+    node = finfo.node if con.region is None else find_region(finfo, con.region)
+    nodes = node if isinstance(node, list) else [node]
+    listed = " ".join(con.modifies or [])
+    out = []
+
+    def self_attr(e):
+        return e.attr if isinstance(e, _ast.Attribute) and isinstance(e.value, _ast.Name) and e.value.id == "self" else None
+    for root in nodes:
+        for n in _ast.walk(root):
+            tgts = n.targets if isinstance(n, _ast.Assign) else ([n.target] if isinstance(n, (_ast.AugAssign, _ast.AnnAssign)) else [])
+            for t in tgts:
+                a = self_attr(t) or (self_attr(t.value) if isinstance(t, _ast.Subscript) else None)
+                if a and a not in listed:
+                    out.append(f"self.{a} at line {t.lineno}")
+            if isinstance(n, _ast.Call) and isinstance(n.func, _ast.Attribute) and n.func.attr in MUTATORS:
+                a = self_attr(n.func.value)
+                if a and a not in listed:
+                    out.append(f"self.{a}.{n.func.attr}() at line {n.lineno}")
+    return out
 
 
 def main(argv=None):
@@ -302,7 +339,24 @@ def report(prop, tier, seed, results, known, assumed, t0, verbose):
             continue
         refs = [x for x in r["refutations"] if "obligation" in x]
         reproduced = [x for x in refs if x["replay"].get("reproduced")]
+        # a natively reproduced failure of one of the function's own clauses is a violation whichever proof obligation it was
+        # that could not be discharged (typically: a loop invariant fails in the proof, and once loops are unrolled it is the
+        # postcondition that has the replayable counter-model)
+        extra_reproduced = [x for x in reproduced if x["obligation"] not in failing]
+        seen_extra = set()
+        for x in extra_reproduced:
+            if x["obligation"] in seen_extra:
+                continue
+            seen_extra.add(x["obligation"])
+            fn = os.path.join(ROOT, "replays", prop, (x["obligation"] + ".json").replace("/", "_"))
+            json.dump({"property": prop, "function": r["key"], "obligation": x["obligation"], "status": "refuted",
+                       "verifier_output": [], "refutation_search": [x], "failing_input": x["model"], "native_replay": x["replay"],
+                       "note": "found by the bounded refutation search after " + ", ".join(sorted(failing)[:3]) + " could not be discharged"},
+                      open(fn, "w"), indent=1, default=str)
+            violations.append((x["obligation"], fn, True))
         for name, obs in failing.items():
+            if extra_reproduced and all(o["kind"] in ("loopinv", "budget") for o in obs) and not any(x["obligation"] == name for x in refs):
+                continue  # explained by the reproduced failure above
             if name.endswith("frame.no_allocation_declared"):
                 # the function now allocates although its contract says it does not: the contract has to be updated
                 # before anything can be concluded -- not a statement about the property
